@@ -1,4 +1,4 @@
-(** C04 — asking for the mailbox by the original address reaches the mailbox fixed at RCPT time *)
+(** C04 — asking for the mailbox by the original address reaches the mailbox fixed at RCPT time. This holds by construction of NewRecipient (Recipient.Mailbox IS ExtractMailbox(address)); the content is that the model, like the code, computes both through the same function *)
 From IV Require Import Base.Bytes Model.Addr Proofs.AddrFacts Proofs.AddrScan Proofs.AddrDomain Proofs.AddrNaming.
 Theorem name_of_address : forall (parse_ip : str -> bool) mode a r, new_recipient parse_ip mode a = Some r -> extract_mailbox parse_ip mode a = Some (r_mailbox r).
 Proof. exact AddrNaming.name_of_address. Qed.
